@@ -16,6 +16,10 @@ var runeClasses = []struct {
 }{
 	{"ascii", 0x20, 0x7e}, {"latin1", 0xa1, 0xff}, {"bmp", 0x100, 0x2fff}, {"wide", 0x4e00, 0x9fff},
 	{"kana", 0x3041, 0x30ff}, {"astral", 0x1f300, 0x1f64f},
+	// zero-width marks; the block whose UTF-8 lead byte (0xEF) also starts the U+FFFD bind of the default keymaps;
+	// the lead bytes 0xE0/0xED/0xF0/0xF4 with their restricted second-byte ranges
+	{"marks", 0x300, 0x36f}, {"compat", 0xf900, 0xffef}, {"e0", 0x800, 0xfff}, {"ed", 0xd000, 0xd7ff}, {"f0", 0x10000, 0x1ffff}, {"f4", 0x100000, 0x10ffff},
+	{"any", 0x80, 0x10ffff},
 }
 
 func randPrintable(r *rand.Rand, class int, max int) string {
